@@ -2,6 +2,7 @@ package props
 
 import (
 	"bytes"
+	"encoding/json"
 	"fmt"
 	"sort"
 	"time"
@@ -334,14 +335,32 @@ func runC14(e *sim.Env) {
 		}
 	}
 
+	// predicted is what the pool has to hold after a block when no pool
+	// function has been called since (set by the block step below)
+	var predicted *poolSnap
+	var replayable map[types.TransactionID]bool
+	var predictedBasis types.ChainIndex
 	steps := e.Range(6, 24)
 	for i := 0; i < steps; i++ {
 		e.Step()
-		before := snapPool(e, "C14", s.cm)
+		stale := predicted != nil
+		var before poolSnap
+		if stale {
+			// the previous step was a block and nothing has asked the pool
+			// since: this submission is the call that revalidates it
+			before, predicted = *predicted, nil
+			e.Probe("submission_is_first_pool_call_after_block")
+		} else {
+			before = snapPool(e, "C14", s.cm)
+		}
 		// the builder always starts from what the pool really holds
 		tb = gen.NewTxBuilder(e, tip.L)
 		tb.OrderSafe, tb.UsedEnds, tb.Strict = true, tree.UsedEnds, genStrict
-		tb.Adopt(before.v1, before.v2)
+		if stale {
+			tb.Avoid(before.v1, before.v2)
+		} else {
+			tb.Adopt(before.v1, before.v2)
+		}
 		useV2 := tb.V2OK() && (!tb.V1OK() || e.Chance(2, 3))
 		// build a set of 1-4 fresh transactions (later ones may depend on earlier ones)
 		n1, n2 := len(tb.Txns), len(tb.V2Txns)
@@ -361,6 +380,10 @@ func runC14(e *sim.Env) {
 			fresh2 = append(fresh2, t.DeepCopy())
 		}
 		mode := e.Pick(5, 2, 2, 2, 1)
+		if stale {
+			// sets without pooled members only: fresh, or conflicting with the pool
+			mode = []int{0, 2}[e.Pick(1, 3)]
+		}
 		modeName := []string{"fresh", "partly-known", "conflict", "invalid", "all-known"}[mode]
 		var set1 []types.Transaction
 		var set2 []types.V2Transaction
@@ -484,7 +507,50 @@ func runC14(e *sim.Env) {
 			e.Guard("C14.panic", "AddPoolTransactions", func() { known, err = s.cm.AddPoolTransactions(set1) })
 		}
 		after := snapPool(e, "C14", s.cm)
-		e.Logf("Add(v2=%v, mode=%s pos=%d, %d txns) -> known=%v err=%v pool %d->%d", useV2, modeName, pos, len(setIDs), known, err != nil, len(before.ids), len(after.ids))
+		e.Logf("Add(v2=%v, mode=%s pos=%d, %d txns, first-call-after-block=%v) -> known=%v err=%v pool %d->%d", useV2, modeName, pos, len(setIDs), stale, known, err != nil, len(before.ids), len(after.ids))
+		if stale {
+			// the prediction (pool before the block minus what the block
+			// confirmed) is off when the new height made a pooled transaction
+			// invalid. Such a transaction is also refused when submitted again;
+			// then this step is not judged. One that is accepted again was valid
+			// all along and its disappearance is judged below.
+			var gone1 []types.Transaction
+			var gone2 []types.V2Transaction
+			for _, t := range before.v1 {
+				if _, ok := after.ids[t.ID()]; !ok {
+					gone1 = append(gone1, t)
+				}
+			}
+			for _, t := range before.v2 {
+				if _, ok := after.ids[t.ID()]; !ok {
+					gone2 = append(gone2, t.DeepCopy())
+				}
+			}
+			if len(gone1)+len(gone2) > 0 {
+				var err1, err2 error
+				basis := predictedBasis // their proofs are as of the block's parent
+				e.Guard("C14.panic", "AddPoolTransactions(resubmit)", func() {
+					if len(gone1) > 0 {
+						_, err1 = s.cm.AddPoolTransactions(gone1)
+					}
+					if len(gone2) > 0 {
+						_, err2 = s.cm.AddV2PoolTransactions(basis, gone2)
+					}
+				})
+				if (len(gone1) > 0 && err1 != nil) || (len(gone2) > 0 && err2 != nil) {
+					e.Probe("pooled_transaction_expired_with_block")
+					for _, t := range gone1 {
+						e.Logf("  gone v1 %v: %d sc in, %d sf in, %d fc, %d rev, %d proofs", t.ID(), len(t.SiacoinInputs), len(t.SiafundInputs), len(t.FileContracts), len(t.FileContractRevisions), len(t.StorageProofs))
+					}
+					for _, t := range gone2 {
+						e.Logf("  gone v2 %v: %d sc in, %d sf in, %d fc, %d rev, %d res", t.ID(), len(t.SiacoinInputs), len(t.SiafundInputs), len(t.FileContracts), len(t.FileContractRevisions), len(t.FileContractResolutions))
+					}
+					e.Logf("  %d pooled transactions stopped being valid with the block (%v / %v): step not judged", len(gone1)+len(gone2), err1, err2)
+					lookups("after a submission that revalidated the pool")
+					continue
+				}
+			}
+		}
 		e.Shape(modeName, fmt.Sprint(useV2), fmt.Sprint(err != nil), fmt.Sprint(known))
 		if mode != 0 {
 			e.Nontrivial = true
@@ -510,7 +576,19 @@ func runC14(e *sim.Env) {
 		}
 		for id := range after.ids {
 			if _, was := before.ids[id]; !was && !setIDs[id] {
-				e.Violationf("C14.all-or-none", "foreign-added", "a submission added transaction %v that was not part of the set", id)
+				if stale && replayable[id] {
+					// confirmed by the block and still valid afterwards
+					e.Probe("confirmed_inputless_transaction_stays_pooled")
+					continue
+				}
+				desc := ""
+				for _, t := range after.v2 {
+					if t.ID() == id {
+						b, _ := json.Marshal(t)
+						desc = string(b)
+					}
+				}
+				e.Violationf("C14.all-or-none", "foreign-added", "a submission added transaction %v that was not part of the set %s", id, desc)
 			}
 		}
 		switch {
@@ -557,21 +635,58 @@ func runC14(e *sim.Env) {
 		tb.OrderSafe, tb.UsedEnds, tb.Strict = true, tree.UsedEnds, genStrict
 		tb.Adopt(after.v1, after.v2)
 		lookups("after " + modeName + " submission")
-		if e.Chance(1, 8) {
-			// a block confirms the pool; continue on the new tip
-			blk := gen.AssembleBlock(e, net, tip.L.State, tree.Timestamp(e, tip, now, false), types.VoidAddress, after.v1, after.v2, true)
+		if e.Chance(1, 6) {
+			// a block confirms the pool, or only its front part (any prefix of
+			// the reported pool is a valid block body); continue on the new tip
+			bt, bv := after.v1, after.v2
+			total := len(after.v1) + len(after.v2)
+			partial := total >= 2 && e.Chance(1, 2)
+			if partial {
+				k := e.Range(1, total-1)
+				if k <= len(after.v1) {
+					bt, bv = after.v1[:k], nil
+				} else {
+					bv = after.v2[:k-len(after.v1)]
+				}
+				e.Probe("block_confirms_prefix_of_pool")
+			}
+			predictedBasis = tip.Index()
+			blk := gen.AssembleBlock(e, net, tip.L.State, tree.Timestamp(e, tip, now, false), types.VoidAddress, bt, bv, true)
 			n, aerr := tree.AddForeign(tip, blk)
 			if aerr != nil {
-				e.Violationf("C14.pool-minable", "block-invalid", "a block assembled from the reported pool is invalid: %v", aerr)
+				e.Violationf("C14.pool-minable", "block-invalid", "a block assembled from the reported pool (first %d of %d) is invalid: %v", len(bt)+len(bv), total, aerr)
 			}
 			if err := s.cm.AddBlocks([]types.Block{blk}); err != nil {
-				e.Violationf("C14.pool-minable", "block-rejected", "a block assembled from the reported pool was rejected: %v", err)
+				e.Violationf("C14.pool-minable", "block-rejected", "a block assembled from the reported pool (first %d of %d) was rejected: %v", len(bt)+len(bv), total, err)
 			}
 			tip = n
 			tb = gen.NewTxBuilder(e, tip.L)
 			tb.OrderSafe, tb.UsedEnds, tb.Strict = true, tree.UsedEnds, genStrict
-			e.Shape("block")
-			lookups("after block")
+			e.Shape("block", fmt.Sprint(partial))
+			if partial && e.Chance(1, 2) {
+				// leave the pool alone: the next submission is the first pool
+				// call after the block
+				pr := poolSnap{ids: map[types.TransactionID]string{}}
+				for _, t := range after.v1[len(bt):] {
+					pr.v1 = append(pr.v1, t)
+					pr.ids[t.ID()] = "v1"
+				}
+				for _, t := range after.v2[len(bv):] {
+					pr.v2 = append(pr.v2, t)
+					pr.ids[t.ID()] = "v2"
+				}
+				predicted = &pr
+				// a transaction without inputs (attestations only) stays valid
+				// after it has been confirmed, and the pool may keep it
+				replayable = map[types.TransactionID]bool{}
+				for _, t := range bv {
+					if len(t.SiacoinInputs)+len(t.SiafundInputs)+len(t.FileContractRevisions)+len(t.FileContractResolutions) == 0 {
+						replayable[t.ID()] = true
+					}
+				}
+			} else {
+				lookups("after block")
+			}
 		}
 	}
 }
@@ -586,7 +701,7 @@ func kindOr(k string) string {
 func init() {
 	register(&Prop{
 		ID: "C14", Run: runC14, Quick: 1200, Thorough: 30000, Level: "exploration",
-		Rule:        "one run = drawn network and chain, then 6-24 pool submissions (v1 or v2 sets of 1-4 possibly dependent transactions: fresh / partly known / conflicting with the pool at a drawn position / invalid at a drawn position / all known) with lookups of every pooled v1 id, v2 id and unknown ids on both lookup functions, TransactionsForPartialBlock for a drawn subset of leaf hashes, agreement of listing and lookup, mutation and reordering of returned values and of the caller's own transactions after each call, and an occasional block assembled from the pool; distinct = abstract trace of (mode, version, error, known); non-trivial = at least one non-fresh set",
+		Rule:        "one run = drawn network and chain, then 6-24 pool submissions (v1 or v2 sets of 1-4 possibly dependent transactions: fresh / partly known / conflicting with the pool at a drawn position / invalid at a drawn position / all known) with lookups of every pooled v1 id, v2 id and unknown ids on both lookup functions, TransactionsForPartialBlock for a drawn subset of leaf hashes, agreement of listing and lookup, mutation and reordering of returned values and of the caller's own transactions after each call, and an occasional block assembled from the whole reported pool or a drawn prefix of it, after which the next call is either a query or (1 in 2 after a prefix block) directly the next submission, so that the submission itself is the call that revalidates the pool; distinct = abstract trace of (mode, version, error, known); non-trivial = at least one non-fresh set",
 		Real:        []string{"chain.Manager (pool)", "chain.DBStore"},
 		Stub:        []string{"disk: simdisk.DB"},
 		Assumptions: []string{"pool contents are observed through PoolTransactions / V2PoolTransactions before and after each call"},
